@@ -393,6 +393,7 @@ int main(int argc, char** argv) {
     vrt::RunResult rr;
     {
       vrt::Ctl c; c.accept = {"sched."};
+      c.hang_secs = 120;                           // robust on a heavily loaded machine (a real hang is still found)
       seam::G.adoptFromMain = true;
       w->construct();
       seam::G.adoptFromMain = false;
